@@ -58,6 +58,14 @@ func init() {
 		Doc: "a link item that the diff step consumes (links not equal, item not pushed back) always has something pushed onto the stack of its " +
 			"side before the step returns successfully: a loaded node is never dropped unexpanded.",
 		Run: runEXPANDALL})
+	Register(&Rule{ID: "EXPANDMODE", Props: []string{"C15", "C06"}, Min: 2,
+		Doc: "in a function that expands a node (pushes Link[i] and entry i in a loop) no push depends on anything but the loop bounds and the " +
+			"nil-ness of a link: a mode flag that thins the expansion out leaves the two stacks out of step, so common subtrees are read.",
+		Run: func(c *Ctx) {
+			if S := sidesReady(c); S != nil {
+				expanderUnconditional(c, S)
+			}
+		}})
 	Register(&Rule{ID: "LOADPROV", Props: []string{"C15"}, Min: 4,
 		Doc: "every node read of the diff step (load, alreadyNotified) is given the link of an item popped from a diff stack in that step, never " +
 			"a link read out of a loaded node.",
@@ -3069,6 +3077,7 @@ func runEXPANDALL(c *Ctx) {
 		return
 	}
 	expandWholeNodes(c, S, step, bodies[0].stacks)
+	expandedNodeProv(c, S, step, bodies[0].stacks)
 	for _, sb := range bodies {
 		for _, sd := range sb.sides() {
 			blocked := map[*ssa.BasicBlock]bool{}
@@ -4731,5 +4740,237 @@ func shortcutRoots(c *Ctx, S *sidesInfo, stacks map[*sdSlot]bool) {
 	}
 	if n == 0 {
 		c.Undecided(nil, "-", "no construction of the diff state", "no function returning the diff state reads a tree's root")
+	}
+}
+
+// ---- EXPANDALL: what is expanded is the node loaded from the item's own link -----------
+
+// expandedNodeProv: the node handed to a whole-expander in the step is the
+// result of load(L) for the very link L it stands for: directly, or the node
+// result of a helper that on every successful return hands back the result of
+// loading its own link parameter (not a link it derived, e.g. while descending
+// through pass-through nodes — then the children of a deeper node would be
+// pushed in place of the item's, and the nodes in between never reported).
+func expandedNodeProv(c *Ctx, S *sidesInfo, step *ssa.Function, stacks map[*sdSlot]bool) {
+	P := c.P
+	prim := c.P.MastFunc("(*Mast).load")
+	if prim == nil {
+		return
+	}
+	scope := map[*ssa.Function]bool{step: true}
+	work := []*ssa.Function{step}
+	for len(work) > 0 {
+		fn := work[len(work)-1]
+		work = work[:len(work)-1]
+		for _, ci := range CallsOf(fn) {
+			cal := ir.Callee(ci.Common())
+			if cal == nil || !S.slice[cal] || cal == prim || scope[cal] {
+				continue
+			}
+			scope[cal] = true
+			work = append(work, cal)
+		}
+	}
+	var prov func(v ssa.Value, wantLinkParam *ssa.Function, depth int) string
+	prov = func(v ssa.Value, inHelper *ssa.Function, depth int) string {
+		if depth > 4 {
+			return "its origin could not be traced"
+		}
+		v = ir.ResolveCell(ir.Strip(v))
+		idx := 0
+		var call *ssa.Call
+		switch x := v.(type) {
+		case *ssa.Extract:
+			idx = x.Index
+			call, _ = x.Tuple.(*ssa.Call)
+		case *ssa.Call:
+			call = x
+		case *ssa.Phi:
+			for _, e := range x.Edges {
+				if ir.IsNilConst(e) {
+					continue
+				}
+				if why := prov(e, inHelper, depth+1); why != "" {
+					return why
+				}
+			}
+			return ""
+		case *ssa.Parameter:
+			fn := x.Parent()
+			pi := sdParamIndex(fn, x)
+			n := 0
+			for _, cs := range P.Callers[fn] {
+				if !scope[cs.Parent()] || pi < 0 || pi >= len(cs.Common().Args) {
+					continue
+				}
+				n++
+				if why := prov(cs.Common().Args[pi], nil, depth+1); why != "" {
+					return why
+				}
+			}
+			if n == 0 {
+				return "it is a parameter without a call site in the step"
+			}
+			return ""
+		case *ssa.UnOp:
+			// a local assigned in a loop: every stored value counts
+			if a, ok := x.X.(*ssa.Alloc); ok && x.Op == token.MUL {
+				stores, esc := ir.AllCellStores(a)
+				if esc || len(stores) == 0 {
+					return "it is read from a variable whose writes cannot be followed"
+				}
+				for _, st := range stores {
+					if ir.IsNilConst(st.Val) {
+						continue
+					}
+					if why := prov(st.Val, inHelper, depth+1); why != "" {
+						return why
+					}
+				}
+				return ""
+			}
+		}
+		if call == nil {
+			return sdDesc(v) + " is not the result of a load"
+		}
+		cal := ir.Callee(call.Common())
+		if cal == prim {
+			link := call.Call.Args[len(call.Call.Args)-1]
+			if inHelper != nil {
+				if sdParamIndex(inHelper, link) < 0 {
+					return fmt.Sprintf("%s returns the node loaded from %s, a link it derived itself, not from its own link parameter", inHelper.Name(), sdDesc(link))
+				}
+			}
+			return ""
+		}
+		if cal == nil || !S.slice[cal] {
+			return sdDesc(v) + " is not the result of a load"
+		}
+		ei := ir.ErrorResultIndex(cal.Signature)
+		for _, r := range ir.Returns(cal) {
+			if ei >= 0 && ei < len(r.Results) && !ir.IsNilConst(r.Results[ei]) {
+				continue
+			}
+			if idx >= len(r.Results) || ir.IsNilConst(r.Results[idx]) {
+				continue
+			}
+			if why := prov(r.Results[idx], cal, depth+1); why != "" {
+				return why
+			}
+		}
+		return ""
+	}
+	for _, fn := range S.fns {
+		if !scope[fn] {
+			continue
+		}
+		for _, ci := range CallsOf(fn) {
+			callee := ir.Callee(ci.Common())
+			if callee == nil || !S.slice[callee] {
+				continue
+			}
+			hasStack := false
+			for _, a := range ci.Common().Args {
+				if sl := S.slotRef(a); sl != nil && stacks[sl] {
+					hasStack = true
+				}
+			}
+			if !hasStack {
+				continue
+			}
+			for ai, a := range ci.Common().Args {
+				if !sdIsNodePtr(a.Type()) || !S.wholeExpander(callee, ai, 0) {
+					continue
+				}
+				pos := P.InstrPos(ci)
+				if why := prov(a, nil, 0); why != "" {
+					c.Violation(fn, pos, "expanded node is not the node loaded from the item's link",
+						fmt.Sprintf("%s hands %s to %s, but %s: the entries and links pushed are not those of the node the popped link names, and the nodes skipped on the way are never reported to the link callback", fn.Name(), sdDesc(a), callee.Name(), why))
+				} else {
+					c.OK(pos, fmt.Sprintf("node expanded by %s in %s", callee.Name(), ir.FuncName(fn)), "the result of loading the link itself (directly or through a helper that loads its link parameter)", false)
+				}
+			}
+		}
+	}
+}
+
+// expanderUnconditional: in a function that expands a node (pushes Link[i] and
+// entry i in a loop) no such push depends on anything but the loop bounds and
+// the nil-ness of a link: an expansion that a mode flag can thin out (links
+// only, entries only) makes the two stacks lose their alignment.
+func expanderUnconditional(c *Ctx, S *sidesInfo) {
+	P := c.P
+	for _, fn := range S.fns {
+		for pi, p := range fn.Params {
+			if !sdIsNodePtr(p.Type()) {
+				continue
+			}
+			var pushes []ssa.CallInstruction
+			links, entries := false, false
+			for _, ci := range CallsOf(fn) {
+				callee := ir.Callee(ci.Common())
+				if callee == nil || !S.slice[callee] || !sdBlockInCycle(ci.Block()) {
+					continue
+				}
+				for ai, a := range ci.Common().Args {
+					isL, isE := false, false
+					if n, k, ok := sdNodeLinkElem(a); ok && n == ssa.Value(p) && k < 0 {
+						isL = true
+					}
+					if ir.ResolveCell(ir.Strip(a)) == ssa.Value(p) && callee != fn && sdFuncReadsParamField(callee, ai, "Key") {
+						isE = true
+					}
+					if sdPathThroughNodeField(a, "Key") && sdAccessRoot(a) == ssa.Value(p) {
+						isE = true
+					}
+					if isL || isE {
+						links, entries = links || isL, entries || isE
+						pushes = append(pushes, ci)
+					}
+				}
+			}
+			if !links || !entries {
+				continue
+			}
+			_ = pi
+			for _, ci := range pushes {
+				bad := ""
+				for _, f := range ir.FactsAt(ci.Block()) {
+					if f.From == nil || !sdBlockInCycle(f.From) {
+						continue // decided before the loop: applies to the whole expansion
+					}
+					cond := f.Cond
+					for {
+						u, ok := cond.(*ssa.UnOp)
+						if !ok || u.Op != token.NOT {
+							break
+						}
+						cond = u.X
+					}
+					if _, _, isNil := ir.NilTest(cond); isNil {
+						continue
+					}
+					if bin, ok := cond.(*ssa.BinOp); ok {
+						if b, isB := bin.X.Type().Underlying().(*types.Basic); isB && b.Info()&types.IsInteger != 0 {
+							continue // loop bounds / index arithmetic
+						}
+					}
+					if _, isOk := cond.(*ssa.Extract); isOk {
+						if _, isNext := cond.(*ssa.Extract).Tuple.(*ssa.Next); isNext {
+							continue // range loop
+						}
+					}
+					bad = sdDesc(cond)
+				}
+				pos := P.InstrPos(ci)
+				what := fmt.Sprintf("push by %s in the expansion loop of %s", ir.Callee(ci.Common()).Name(), ir.FuncName(fn))
+				if bad != "" {
+					c.Violation(fn, pos, "the expansion of a node depends on a mode flag",
+						fmt.Sprintf("%s pushes this part of the node only when %s holds — a condition that is neither a loop bound nor the nil-ness of a link: an expansion without all its links or all its entries leaves the two stacks out of step, so equal subtrees no longer meet link against link (and are read), or entries go missing", fn.Name(), bad))
+				} else {
+					c.OK(pos, what, "depends only on the loop bounds", false)
+				}
+			}
+		}
 	}
 }
